@@ -725,6 +725,14 @@ func GenSession(prop string, seed uint64, thorough bool) *Scenario {
 			break
 		}
 	}
+	// C18: a 'close' listener that takes its time while the last batch (with send callbacks) is still with the transport:
+	// callbacks of a session that has closed are dropped, not run late
+	if prop == "C18" && !sc.FaultFree && g.p(0.15) {
+		cl := sc.Clients[g.IntN(len(sc.Clients))]
+		if len(cl.Raw) == 0 {
+			sc.Reent = append(sc.Reent, ReentSpec{Event: "close", Call: "sleep", Ms: g.pick(10, 40), Sess: cl.Name, Nth: 1})
+		}
+	}
 	// C07: an application 'heartbeat' listener that takes time must not disturb the heartbeat itself (the
 	// timers are dealt with before the event is emitted)
 	if prop == "C07" && g.p(0.25) {
